@@ -653,6 +653,7 @@ func c20throttleGraph(c *c20ctx, trailing bool) {
 	type monitor struct {
 		lastPerm   int64 // time of the last permission (-1000: none)
 		obligation bool  // a trigger has been sent and no permission was handed out since
+		inNext     bool  // the consumer is inside Next (time passes only while it is parked there, or outside)
 		cancelled  bool
 		viol, det  string
 		trace      []string
@@ -705,8 +706,11 @@ func c20throttleGraph(c *c20ctx, trailing bool) {
 		vrt.GoNamed("consumer", false, func() {
 			defer done.Done()
 			for {
+				vrt.Sched("consumer between two calls of Next") // it may be slow to come back: time passes here
+				mm.inNext = true
 				ok := th.Next()
 				t := now()
+				mm.inNext = false
 				if !ok {
 					return
 				}
@@ -732,10 +736,10 @@ func c20throttleGraph(c *c20ctx, trailing bool) {
 			}
 			// The monitor reads the instant of a permission when Next has returned. So that this IS the
 			// instant at which the throttle handed it out, no time passes while the consumer is running
-			// (between being woken and parking again): otherwise a consumer that was handed a permission at
-			// 0 and scheduled again at 2 would be recorded at 2, and a legitimate permission at 6 would
-			// look too early (seen in the thorough tier, which keeps the scheduling points before releases).
-			// Consumers that are slow to come back are the business of the script families.
+			// inside Next (between being woken and returning): otherwise a consumer that was handed a
+			// permission at 0 and scheduled again at 2 would be recorded at 2, and a legitimate permission at
+			// 6 would look too early (seen in the thorough tier, which keeps the scheduling points before
+			// releases). Between two calls of Next the consumer may be as slow as it likes.
 			k := vrt.Choose(3)
 			switch k {
 			case 0:
@@ -749,7 +753,7 @@ func c20throttleGraph(c *c20ctx, trailing bool) {
 				th.Call()
 			case 1:
 				// (the condition is evaluated in the same step as the clock movement, after the scheduling point)
-				vrt.AdvanceIf(2*unit, func() bool { return vrt.ThreadParked(consumer) })
+				vrt.AdvanceIf(2*unit, func() bool { return !mm.inNext || vrt.ThreadParked(consumer) })
 			case 2:
 				th.Cancel()
 				mm.cancelled = true
